@@ -343,10 +343,7 @@ func checkC05(c *Ctx, r *Report) {
 		gad := findInstrs(f, callPred("(*"+dsT+").getActiveDial"))
 		q := &Cut{Fn: f, From: gad, EdgeCut: edgeNil(isCallResult(1, "(*"+dsT+").getActiveDial"), false), Sep: inSet(decs), Target: func(in ssa.Instruction) bool { _, ok := in.(*ssa.Return); return ok }}
 		r4.mustPass(f, "(*"+dsT+").Dial: past getActiveDial every exit drops the reference", q, 1)
-		zero := edgeCmp(func(b *ssa.BinOp) bool {
-			k, ok := constInt(b.Y)
-			return ok && k == 0 && b.Op == token.EQL && isLoadOfField(adT + ".refCnt")(strip2(b.X))
-		}, true)
+		zero := edgeIntBound(func(v ssa.Value) bool { return isLoadOfField(adT + ".refCnt")(strip2(v)) }, -intInf, 0, false)
 		ends := findInstrs(f, func(in ssa.Instruction) bool {
 			return isCallTo(in, "builtin.close") || (isCallTo(in, "builtin.delete") && isFieldWrite(in, dsT+".dials")) || isDynCallOfField(in, adT+".cancelCause")
 		})
